@@ -42,15 +42,23 @@ fn op(code: usize) -> (Vec<Stmt>, &'static str) {
         22 => (vec![pv(call(index(var("l"), int(0)), vec![]))], "call a list element"),
         23 => (vec![pv(call(var("callit"), vec![h()]))], "call inside another function"),
         24 => (vec![assign(prop(o(3), "inner"), o(2))], "re-point the chain"),
-        _ => (vec![assign(h(), obj(vec![pair("tag", int(9)), pair("m", h())])), assign(h(), prop(h(), "m"))], "through a fresh object literal"),
+        _ => (vec![assign(h(), obj(vec![pair("tag", int(9)), pair("nm", string("n9")), pair("m", h())])), assign(h(), prop(h(), "m"))], "through a fresh object literal"),
     }
 }
 
+const N_STYLES: u64 = 6;
+
 fn prelude(style: usize) -> Vec<Stmt> {
     let body = vec![ret(prop(var("this"), "tag"))];
+    let slot = |e: Expr| ex(EK::Interp(vec![StrPart::Text(vec![('<', Spell::Raw)]), StrPart::Slot(Box::new(e)), StrPart::Text(vec![('>', Spell::Raw)])]));
     let who = match style {
         0 => fn_decl("who", vec![], false, body),
         1 => declare(var("who"), func(vec![], false, body)),
+        // `this` mentioned only inside an interpolation slot, only inside a
+        // slot of a slot, only inside a closure called from a slot.
+        3 => fn_decl("who", vec![], false, vec![ret(slot(prop(var("this"), "nm")))]),
+        4 => declare(var("who"), func(vec![], false, vec![ret(slot(slot(prop(var("this"), "nm"))))])),
+        5 => fn_decl("who", vec![], false, vec![ret(slot(call(func(vec![], false, vec![ret(prop(var("this"), "nm"))]), vec![])))]),
         _ => {
             // A nested closure: the inner function sees the `this` of the
             // call it was created in.
@@ -62,9 +70,9 @@ fn prelude(style: usize) -> Vec<Stmt> {
         fn_decl("same", vec![var("f")], false, vec![ret(var("f"))]),
         fn_decl("wrap", vec![var("f")], false, vec![ret(func(vec![], false, vec![ret(call(var("f"), vec![]))]))]),
         fn_decl("callit", vec![var("f")], false, vec![ret(call(var("f"), vec![]))]),
-        declare(o(1), obj(vec![pair("tag", int(1)), pair("m", var("who"))])),
-        declare(o(2), obj(vec![pair("tag", int(2))])),
-        declare(o(3), obj(vec![pair("tag", int(3)), pair("inner", o(1))])),
+        declare(o(1), obj(vec![pair("tag", int(1)), pair("nm", string("n1")), pair("m", var("who"))])),
+        declare(o(2), obj(vec![pair("tag", int(2)), pair("nm", string("n2"))])),
+        declare(o(3), obj(vec![pair("tag", int(3)), pair("nm", string("n3")), pair("inner", o(1))])),
         declare(var("l"), list(vec![null()])),
         declare(var("h"), prop(o(1), "m")),
     ]
@@ -86,7 +94,7 @@ fn history(digits: &[usize], style: usize) -> (Prog, Vec<&'static str>) {
 
 fn enumerate(ctx: &Ctx, len: usize, sample_every: u64) {
     let base = N_OPS as u64;
-    let total = base.pow(len as u32) * 3;
+    let total = base.pow(len as u32) * N_STYLES;
     let seen: Mutex<HashSet<u64>> = Mutex::new(HashSet::new());
     (0..total).into_par_iter().for_each(|code0| {
         if ctx.stopped() {
@@ -95,8 +103,8 @@ fn enumerate(ctx: &Ctx, len: usize, sample_every: u64) {
         if sample_every > 1 && (code0.wrapping_mul(0x9E3779B97F4A7C15) >> 20) % sample_every != ctx.seed % sample_every {
             return;
         }
-        let style = (code0 % 3) as usize;
-        let mut c = code0 / 3;
+        let style = (code0 % N_STYLES) as usize;
+        let mut c = code0 / N_STYLES;
         let mut digits = vec![];
         for _ in 0..len {
             digits.push((c % base) as usize);
@@ -208,10 +216,13 @@ fn catalogue() -> Vec<(Case, bool)> {
 }
 
 pub fn run(ctx: &Ctx) {
-    ctx.set_rule("all histories of length <= 3 (quick: length 3 sampled 1:4; thorough: length 4 complete, length 5 sampled 1:40) over 26 operations {attach h to o1/o2/o3, read by .m / [\"m\"] from each, fresh function, through argument+return, into / out of a list, chain read, closure capture, copy between variables, re-attach from o1 to o2, re-point the chain, through a fresh object literal, call h(), o.m(), chain call, list element call, call inside another function} x 3 definition styles (named fn, anonymous, nested closure), objects carrying distinct tags; arity 0..4 x rest x argument count 0..arity+2 x plain/spread with tracing arguments and a parameter that is assigned inside; catalogue of parameter freshness / this identity; oracle: reference with origin provenance. Non-trivial = the history distinguishes one of {this = first object ever, this dropped on store, this dropped on pass, arguments copied} or has >= 2 moves; distinct = distinct source texts");
+    ctx.set_rule("all histories of length <= 3 (quick: length 3 sampled 1:4; thorough: length 4 complete, length 5 sampled 1:40) over 26 operations {attach h to o1/o2/o3, read by .m / [\"m\"] from each, fresh function, through argument+return, into / out of a list, chain read, closure capture, copy between variables, re-attach from o1 to o2, re-point the chain, through a fresh object literal, call h(), o.m(), chain call, list element call, call inside another function} x 6 definition styles (named, anonymous, nested closure, `this` only inside an interpolation slot / a slot of a slot / a closure called from a slot) (named fn, anonymous, nested closure), objects carrying distinct tags; arity 0..4 x rest x argument count 0..arity+2 x plain/spread with tracing arguments and a parameter that is assigned inside; catalogue of parameter freshness / this identity; oracle: reference with origin provenance. Non-trivial = the history distinguishes one of {this = first object ever, this dropped on store, this dropped on pass, arguments copied} or has >= 2 moves; distinct = distinct source texts");
     ctx.replay_corpus(None);
     ctx.judge_all(catalogue(), Via::Cli, None);
     ctx.judge_all(call_matrix(ctx), Via::Cli, None);
+    // Arguments are evaluated once, left to right: a spread argument is read
+    // when its turn comes, not after the later arguments (shared with C13).
+    ctx.judge_all(crate::props::c13::spread_effect_cases(ctx, "C14", true), Via::Cli, None);
     enumerate(ctx, 1, 1);
     enumerate(ctx, 2, 1);
     ctx.mark_exhaustive("this-histories of length <= 2 x 3 definition styles; call matrix");
